@@ -7,6 +7,7 @@ import (
 	"fmt"
 	"sync"
 
+	classifier "github.com/google/licenseclassifier/v2"
 )
 
 // cmdC09: N goroutines call Match/MatchFrom on ONE classifier; every result must equal the
@@ -44,6 +45,17 @@ func cmdC09(seed uint64, tier, outdir string) {
 			shared := warm
 			if round == 0 {
 				shared = buildCorpus(0.8, docs).c // cold: no call before the fan-out
+				// a trace configuration must stay read-only during Match as well: wildcard and prefix license
+				// lists, with and without phases (the tracer itself is safe for concurrent use)
+				switch ngo {
+				case 16:
+					shared.SetTraceConfiguration(&classifier.TraceConfiguration{TraceLicenses: "*", TracePhases: ""})
+				case 64:
+					var mu sync.Mutex
+					lines := 0
+					shared.SetTraceConfiguration(&classifier.TraceConfiguration{TraceLicenses: "GPL-*,MIT,Apache-*", TracePhases: "*",
+						Tracer: func(f string, a ...interface{}) { mu.Lock(); lines++; mu.Unlock() }})
+				}
 			}
 			got := make([][]string, ngo)
 			var wg sync.WaitGroup
